@@ -911,6 +911,14 @@ class OptionStore:
         assert key.subproject is not None
         if key in self.options:
             raise MesonException(f'Internal error: tried to add a project option {key} that already exists.')
+        self._link_to_parent(key, valobj)
+
+        self.options[key] = valobj
+        self.project_options.add(key)
+        assert key not in self.pending_options
+
+    def _link_to_parent(self, key: OptionKey, valobj: AnyOptionType) -> None:
+        """Make a yielding subproject option follow the top-level option of the same name."""
         if valobj.yielding and key.subproject:
             parent_key = key.as_root()
             try:
@@ -924,10 +932,6 @@ class OptionStore:
                 # project does not have an option of the same
                 pass
         valobj.yielding = valobj.parent is not None
-
-        self.options[key] = valobj
-        self.project_options.add(key)
-        assert key not in self.pending_options
 
     def add_module_option(self, modulename: str, key: T.Union[OptionKey, str], valobj: AnyOptionType) -> None:
         key = self.ensure_and_validate_key(key)
@@ -1403,6 +1407,7 @@ class OptionStore:
                 # If the choices have changed, use the new value, but attempt
                 # to keep the old options. If they are not valid keep the new
                 # defaults but warn.
+                self._link_to_parent(key, value)
                 self.options[key] = value
                 try:
                     value.set_value(oldval.value)
